@@ -302,7 +302,8 @@ def mn_spec(draw, min_nodes=2, max_nodes=6, connected=True, name_kinds=("str", "
     scopes = []
     if shape == "cycle" and n >= 4:
         order = list(draw(st.permutations(names)))
-        scopes = [[order[i], order[(i + 1) % n]] for i in range(n)]
+        m = n - 1 if (not connected and n >= 5 and draw(st.booleans())) else n  # leave one variable isolated
+        scopes = [[order[i], order[(i + 1) % m]] for i in range(m)]
     elif shape == "tree":
         order = list(draw(st.permutations(names)))
         for i in range(1, n):
